@@ -12,12 +12,25 @@ pub fn check_spec(rep: &mut Report, spec: &Spec, seed: u64) {
     let (class, why) = classify(&states);
     rep.hist("spec_class", &format!("{:?}:{}", class, why));
     rep.hist("spec_states", &format!("{}", states.len().min(20)));
-    // every fourth specification: build() called twice on one builder, the second result is judged
-    let twice = fnv(&case) % 4 == 0;
-    if twice {
+    // one specification in four: build() called twice on one builder, the second result is judged;
+    // one in four: the same calls with state labels whose hash codes collide
+    let variant = fnv(&case) % 4;
+    let incremental = spec.calls.iter().any(|c| matches!(c, Call::Build));
+    if incremental {
+        rep.inc("builds_after_an_earlier_build_and_more_calls_judged");
+    }
+    if variant == 0 {
         rep.inc("second_build_on_same_builder_judged");
     }
-    let res = match if twice { build_spec_twice(spec) } else { build_spec(spec) } {
+    if variant == 1 {
+        rep.inc("builds_with_colliding_label_hashes_judged");
+    }
+    let built = match variant {
+        0 => build_spec_twice(spec),
+        1 => build_spec_clash(spec),
+        _ => build_spec(spec),
+    };
+    let res = match built {
         Ok(r) => r,
         Err(msg) => {
             rep.violation("build-panic", &format!("build-panic:{}", why), format!("build() panicked on a {} specification: {}", why, msg), "autospec", &case, seed);
@@ -107,6 +120,28 @@ pub fn run(p: &Params, rep: &mut Report) {
                 rep.harness_error(m);
             } else {
                 rep.violation("panic", "panic-unguarded", format!("crate panicked: {}", m), "autospec", &text, seed);
+            }
+        }
+        // the builder extended after a build: the same calls with one or two intermediate build() calls; the final
+        // build must judge (and return) the whole specification, exactly like a fresh builder given all the calls
+        if i % 3 == 0 && spec.calls.len() >= 2 {
+            let mut inc = spec.clone();
+            let n = inc.calls.len();
+            // cut points: uniformly, or just before the last few calls (where generators put re-declarations and defects)
+            let cut = if rng.chance(1, 2) { 1 + rng.usize(n - 1) } else { n - 1 - rng.usize(3.min(n - 1)) };
+            inc.calls.insert(cut.max(1), Call::Build);
+            if rng.chance(1, 4) {
+                let c2 = 1 + rng.usize(inc.calls.len() - 1);
+                inc.calls.insert(c2, Call::Build);
+            }
+            let text = inc.to_text();
+            rep.eval(Some(&text));
+            if let Err(m) = guard(|| check_spec(rep, &inc, seed)) {
+                if panic_in_harness(&m) {
+                    rep.harness_error(m);
+                } else {
+                    rep.violation("panic", "panic-unguarded", format!("crate panicked: {}", m), "autospec", &text, seed);
+                }
             }
         }
     }
